@@ -895,22 +895,20 @@ def _fix_doc(case):
     """Generator-side avoidance of the shapes of confirmed defects (see EXCLUDE_KNOWN)."""
     cat = catalogue()
     case = dict(case)
-    last = {}
-    for ch in case["changes"]:
-        if not ch.get("skip"):
-            last[ch["name"]] = ch
     if _excluded(SIG_DEFAULT):
         bad = [n for n in sorted(cat) if not cat[n]["defaultOk"]]
         case["userSet"] = [n for n in case["userSet"] if n not in bad]
         if case["style"] == "full":
             forced = [{"name": n, "v": 1.5, "e": "any", "forced": SIG_DEFAULT} for n in bad]
             case["changes"] = [c for c in case["changes"] if c["name"] not in bad] + forced
-    if "userPlugins" in last and case["via"] == "file":
-        v = last["userPlugins"]["v"]
-        if v is None and _excluded(SIG_UPLUG):
-            case["via"], case["avoided"] = "string", SIG_UPLUG
-        elif isinstance(v, list) and v:
-            case["via"] = "string"  # reading a file would import the named plugins (side effect, not a settings property)
+    for ch in case["changes"]:
+        # any userPlugins entry counts: which one ends up applied depends on the schema verdicts
+        if ch["name"] == "userPlugins" and case["via"] == "file" and not ch.get("skip"):
+            v = ch["v"]
+            if v is None and _excluded(SIG_UPLUG):
+                case["via"], case["avoided"] = "string", SIG_UPLUG
+            elif not isinstance(v, dict) and v:
+                case["via"] = "string"  # reading a file would import the named plugins (side effect, not a settings property)
     return case
 
 
@@ -1053,7 +1051,7 @@ def _fix_hand(case):
             v = ent["v"]
             if v is None and _excluded(SIG_UPLUG):
                 case["via"], case["avoided"] = "string", SIG_UPLUG
-            elif isinstance(v, list) and v:
+            elif not isinstance(v, dict) and v:
                 case["via"] = "string"
     return case
 
@@ -1590,20 +1588,20 @@ PARTS = [
               "style (stream or file), the first also in full and the second in medium style, with the complete `documents` oracle; "
               "non-trivial = every written document",
          bound=lambda t: "all settings x <= %d values x {short, medium, full}" % (8 if t == "quick" else 40)),
-    Part("assign", assign_execute, strategy=assign_strategy, budget={"quick": 1500, "thorough": 80000}, procs={"quick": 4, "thorough": 16},
+    Part("assign", assign_execute, strategy=assign_strategy, budget={"quick": 3000, "thorough": 80000}, procs={"quick": 4, "thorough": 16},
          rule="Hypothesis: histories of 1-10 assignments on one Settings object; the setting is drawn uniformly (nested and container "
               "settings boosted), the value from the setting's introspected schema (Coerce/Range/In/Any/list; hand-written generators "
               "for crossSectionControl, cycles, tightCouplingSettings; YAML-hostile strings; falsy values; the default) incl. near misses; "
               "oracle after every step: schema(v) on an independent Setting copy raises <=> assignment raises, stored == schema(v), a refused "
               "value leaves the previous one, no other setting moves, by-construction expectation of well-formed / near-miss values agrees "
               "with the schema; non-trivial = at least one accepted off-default value and one refused value"),
-    Part("documents", documents_execute, strategy=documents_strategy, budget={"quick": 1200, "thorough": 100000}, procs={"quick": 6, "thorough": 16},
+    Part("documents", documents_execute, strategy=documents_strategy, budget={"quick": 2400, "thorough": 100000}, procs={"quick": 8, "thorough": 16},
          rule="Hypothesis: 0-15 settings changed at once -> written by armi in short/medium/full style to a stream or a scratch file -> read "
               "by armi into a fresh Settings; oracle: every setting equal to the value before writing (versions modulo the armi entry), "
               "default settings still at default, the text parsed with ruamel alone has exactly the expected top-level keys per style "
               "(short: off-default + versions; medium: + listed user settings; full: all) and holds the stored values, writing does not "
               "change the settings, the re-written read-back holds the same data; non-trivial = >= 3 settings off default incl. one container"),
-    Part("handwritten", handwritten_execute, strategy=handwritten_strategy, budget={"quick": 1200, "thorough": 80000}, procs={"quick": 3, "thorough": 16},
+    Part("handwritten", handwritten_execute, strategy=handwritten_strategy, budget={"quick": 2400, "thorough": 80000}, procs={"quick": 4, "thorough": 16},
          rule="Hypothesis: settings texts produced without armi (ruamel block or flow style) from 0-8 entries (valid values, near misses, "
               "unknown keys, old names) read into a Settings that already holds 0-3 changes; oracle in file order with the values as an "
               "independent YAML parse sees them: first value its schema rejects => reading raises (InvalidSettingsFileError for files) and the "
@@ -1614,7 +1612,7 @@ PARTS = [
               "invalid value lands on / is refused by the new setting; synthetic settings for active, not-yet-expired, expired, colliding "
               "old names and an old name equal to a current name",
          bound=lambda t: "all oldNames of the configured App x {string, file} x 3 values + 5 synthetic expiry shapes"),
-    Part("copies", copies_execute, strategy=copies_strategy, budget={"quick": 600, "thorough": 40000}, procs={"quick": 3, "thorough": 16},
+    Part("copies", copies_execute, strategy=copies_strategy, budget={"quick": 1200, "thorough": 40000}, procs={"quick": 4, "thorough": 16},
          rule="Hypothesis: a Settings with 0-10 changes is copied by modified(newSettings)/duplicate()/deepcopy/pickle and the copy is "
               "changed by assignment and by in-place mutation of every list/dict/XS value (and vice versa); oracle: the original's snapshot, "
               "the defaults of new Settings objects and an earlier duplicate never change, the copy holds schema(v) for the modified settings "
